@@ -169,8 +169,8 @@ VARIANTS = [
     V( 'chain-stateful-default', TNET, "source = None, # Provide a cpppo.chainable, if desire, to receive into and parse from", "source	= cpppo.chainable(),", fires=[ 'P-CHAIN' ] ),
     V( 'shared-parser-rewired', LOGIX, "def setup_reset():", "def setup_rewire():\n    Logix.parser.initial[True] = None\n\ndef setup_reset():", fires=[ 'R-LOCK-2' ] ),
     V( 'merge-empty-unguarded', MODBUS, "try:\n base, length = next( input )\n except StopIteration:\n return # no ranges; nothing to merge", "base, length	= next( input )", fires=[ 'M-BANK' ], why='defect O' ),
-    V( 'merge-reach-equivalent', MODBUS, "and address < base + length + ( reach or 1 )):", "and address <= base + length - 1 + ( reach or 1 )):", silent=[ 'M-BANK' ] ),
-    V( 'merge-reach-off-by-one', MODBUS, "and address < base + length + ( reach or 1 )):", "and address <= base + length + ( reach or 1 )):", fires=[ 'M-BANK' ] ),
+    V( 'merge-reach-equivalent', MODBUS, "and address < base + length + ( reach or 1 ))):", "and address <= base + length - 1 + ( reach or 1 ))):", silent=[ 'M-BANK' ] ),
+    V( 'merge-reach-off-by-one', MODBUS, "and address < base + length + ( reach or 1 ))):", "and address <= base + length + ( reach or 1 ))):", fires=[ 'M-BANK' ] ),
     # ---- round-3 rules
     V( 'init-shared-list', PARSER, "u64p[None] = move_if( 'mov64bitu', source='.ULINT',\n destination='.data', initializer=lambda **kwds: [],", "u64p[None]		= move_if( 	'mov64bitu',	source='.ULINT',\n                                           destination='.data',	initializer=[],", fires=[ 'G-INIT' ] ),
     V( 'peek-truthiness', CLIENT, "if self.source.peek() is None:", "if not self.source.peek():", fires=[ 'P-ACT' ] ),
@@ -339,7 +339,7 @@ VARIANTS = [
     V( 'extent-recomputed', MODBUS, "length = max( length, address + count - base )", "length	= address + count - base", fires=[ 'M-EXTENT' ] ),
     V( 'extent-guarded-form', MODBUS, "length = max( length, address + count - base )", "if address + count - base > length: length = address + count - base", silent=[ 'M-EXTENT' ] ),
     V( 'tile-advance-by-limit', MODBUS, "address += taken", "address	       += limit", fires=[ 'M-TILE' ] ),
-    V( 'bank-test-dropped', MODBUS, "if ( address // 10000 == base // 10000\n and address < base + length + ( reach or 1 )):", "if ( address < base + length + ( reach or 1 )):", fires=[ 'M-BANK' ] ),
+    V( 'bank-test-dropped', MODBUS, "or ( address // 10000 == base // 10000\n and address < base + length + ( reach or 1 ))):", "or ( address < base + length + ( reach or 1 ))):", fires=[ 'M-BANK' ] ),
     V( 'tnet-bool-decoder', TNETS, "value = payload == b'true'", "value = payload == b'True'", fires=[ 'T-TNET' ] ),
     V( 'tnet-unknown-tag', TNETS, "typ = b'^'", "typ = b'%'", fires=[ 'T-TNET' ] ),
     V( 'tnet-isinstance-int-first', TNETS, "if type(data) in ((int,long) if sys.version_info[0] < 3 else (int,)): # noqa: F821", "if isinstance( data, int ):", fires=[ 'T-TNET' ] ),
@@ -372,10 +372,10 @@ VARIANTS = [
     V( 'ncp-test-not-in-spelled-out', DEFAULTS, "if NCP is None or None not in specificity:", "if NCP is None or not ( None in specificity ):", silent=[ 'K-NCPSTATE' ] ),
     V( 'each-peek-into-member-for-log', DEVICE, 'log.detail( "%s Process on %s: %s", self, target, enip_format( r ))', 'log.detail( "%s Process on %s: %s %s", self, target, target.service[r.service], enip_format( r ))', fires=[ 'P-EACH' ], why='seed C07-15' ),
     V( 'each-log-text-changed', DEVICE, 'log.detail( "%s Process on %s: %s", self, target, enip_format( r ))', 'log.detail( "%s Processing on %s: %s", self, target, enip_format( r ))', silent=[ 'P-EACH', 'P-CLOSURE' ] ),
-    V( 'fmtpath-class-at-any-position', CLIENT, "elif 'class' in seg and len( numeric ) == 0:", "elif 'class' in seg:", fires=[ 'T-PATHSYNTAX' ], why='seed C12-15' ),
+    V( 'fmtpath-class-at-any-position', CLIENT, "elif 'class' in seg and len( numeric ) == 0:", "elif 'class' in seg:", fires=[ 'T-PATHSYNTAX' ], why='seed C12-13' ),
     V( 'fmtpath-instance-when-any-number', CLIENT, "elif 'instance' in seg and len( numeric ) == 1:", "elif 'instance' in seg and numeric:", fires=[ 'T-PATHSYNTAX' ] ),
     V( 'fmtpath-class-not-numeric', CLIENT, "elif 'class' in seg and len( numeric ) == 0:", "elif 'class' in seg and not numeric:", silent=[ 'T-PATHSYNTAX' ] ),
-    V( 'routekey-table-keyed-by-raw-text', UCMM, 'self.route = { "{port}/{link}".format( **device.port_link( pl )): addr_port( ap )', 'self.route		= { pl: addr_port( ap )', fires=[ 'K-ROUTEKEY' ], why='seed C15-15' ),
+    V( 'routekey-table-keyed-by-raw-text', UCMM, 'self.route = { "{port}/{link}".format( **device.port_link( pl )): addr_port( ap )', 'self.route		= { pl: addr_port( ap )', fires=[ 'K-ROUTEKEY' ], why='seed C15-14' ),
     V( 'routekey-lookup-other-format', UCMM, 'pl = "{port}/{link}".format( **route_path[0] )', 'pl	= "{port}-{link}".format( **route_path[0] )', fires=[ 'K-ROUTEKEY' ] ),
     V( 'zonetoken-letter-made-separator', TIMES, 'maketrans( ":-.", "   " )', 'maketrans( ":-.T", "    " )', fires=[ 'T-ZONETOKEN' ], why='seed C17-13' ),
     V( 'zonetoken-separators-reordered', TIMES, 'maketrans( ":-.", "   " )', 'maketrans( ".:-", "   " )', silent=[ 'T-ZONETOKEN' ] ),
@@ -389,15 +389,15 @@ VARIANTS = [
     V( 'tagloop-same-address-mirrored', MAIN, "if device.resolve( te['path'], attribute=True ) == (cls,ins,att):", "if (cls,ins,att) == device.resolve( te['path'], attribute=True ):", silent=[ 'T-TAGLOOP' ] ),
     V( 'route-failed-connection-only-forgotten', UCMM, "failed = self.route_conn.pop( target, None )\n if failed is not None:\n failed.close()", "del self.route_conn[target]", fires=[ 'P-ROUTE' ], why='defect AO reverted' ),
     V( 'route-failed-connection-del-then-close', UCMM, "failed = self.route_conn.pop( target, None )\n if failed is not None:\n failed.close()", "failed	= self.route_conn[target]\n                            del self.route_conn[target]\n                            failed.close()", silent=[ 'P-ROUTE' ] ),
-    V( 'limits-identity-item-unlimited', PARSER, "ilen[None] = decide( cls.__name__, state=cls( terminal=True, limit='..length' ),", "ilen[None]		= decide( cls.__name__, state=cls( terminal=True, limit=None if cls is identity_object else '..length' ),", fires=[ 'G-LIMITS' ], why='seed C10-14' ),
-    V( 'limits-moved-to-nonconsuming-selector', PARSER, "state = cls( limit='...length', terminal=True ),", "state		= cls( terminal=True ),", fires=[ 'G-LIMITS' ], why='seed C10-15' ),
+    V( 'limits-identity-item-unlimited', PARSER, "ilen[None] = decide( cls.__name__, state=cls( terminal=True, limit='..length' ),", "ilen[None]		= decide( cls.__name__, state=cls( terminal=True, limit=None if cls is identity_object else '..length' ),", fires=[ 'G-LIMITS' ], why='seed C10-13' ),
+    V( 'limits-moved-to-nonconsuming-selector', PARSER, "state = cls( limit='...length', terminal=True ),", "state		= cls( terminal=True ),", fires=[ 'G-LIMITS' ], why='seed C10-14' ),
     V( 'limits-kwargs-reordered', PARSER, "state = cls( limit='...length', terminal=True ),", "state		= cls( terminal=True, limit='...length' ),", silent=[ 'G-LIMITS' ] ),
     V( 'udp-status-ends-peer', MAIN, "conn.sendto( rpy, addr )", "conn.sendto( rpy, addr )\n                    if data.response.enip.status:\n                        stats['eof'] = True", fires=[ 'E-CONTAIN' ], why='seed C08-14' ),
     V( 'pace-lookahead-scaled-at-store', HFILES, "self.lookahead = lookahead", "self.lookahead		= None if lookahead is None else lookahead * self.factor", fires=[ 'H-PACE' ], why='seed C18-15' ),
     V( 'status-read-data-trimmed-after-range', LOGIX, "and offremains % attribute.parser.struct_calcsize == 0 )\n completed = end == endactual", "and offremains % attribute.parser.struct_calcsize == 0 )\n                    recs		= recs[:max( max_size // attribute.parser.struct_calcsize, 1 )]\n                    completed		= end == endactual", fires=[ 'F-STATUS' ], why='seed C04-13' ),
     V( 'status-struct-trim-renamed', LOGIX, "trimmed = input[offremains:offremains+max_size]\n recs = dict( input=trimmed )", "cut		= input[offremains:offremains+max_size]\n                    recs		= dict( input=cut )", silent=[ 'F-STATUS' ], why='the UDT branch ( outside C04 ) legitimately replaces the records by their byte rendering' ),
-    V( 'repeat-final-lowered-in-loop', AUTO, 'raise NonTerminal( "%s sub-machine terminated in a non-terminal state, %r" % ( self, source ))\n\n #log.debug( "%s <sub term>", self.name_centered() )', 'raise NonTerminal( "%s sub-machine terminated in a non-terminal state, %r" % ( self, source ))\n            if ending is not None and source.sent >= ending:\n                self.final	= self.cycle\n', fires=[ 'R-REPEAT' ], why='seed C10-13' ),
-    V( 'client-write-refuses-tiles', CLIENT, "tag_type = parser.INT.tag_type\n if offset is None:\n req.write_tag", "tag_type		= parser.INT.tag_type\n        assert elements == len( data )\n        if offset is None:\n            req.write_tag", fires=[ 'F-CLIENT' ], why='seed C04-15' ),
+    V( 'repeat-final-lowered-in-loop', AUTO, 'raise NonTerminal( "%s sub-machine terminated in a non-terminal state, %r" % ( self, source ))\n\n #log.debug( "%s <sub term>", self.name_centered() )', 'raise NonTerminal( "%s sub-machine terminated in a non-terminal state, %r" % ( self, source ))\n            if ending is not None and source.sent >= ending:\n                self.final	= self.cycle\n', fires=[ 'R-REPEAT' ], why='seed C10-12' ),
+    V( 'client-write-refuses-tiles', CLIENT, "tag_type = parser.INT.tag_type\n if offset is None:\n req.write_tag", "tag_type		= parser.INT.tag_type\n        assert elements == len( data )\n        if offset is None:\n            req.write_tag", fires=[ 'F-CLIENT' ], why='seed C04-14' ),
     V( 'client-write-plain-form-checks-count', CLIENT, "if offset is None:\n req.write_tag = {", "if offset is None:\n            assert elements == len( data )\n            req.write_tag	= {", silent=[ 'F-CLIENT' ] ),
     V( 'symbol-casefold', DEVICE, "tag_canonical = tag.lower()", "tag_canonical		= tag.casefold()", fires=[ 'T-SYMBOL' ], why='seed C05-14' ),
     V( 'validate-extent-assert-deleted', LOGIX, 'assert endactual <= cnt, \\\n "Attribute %r elements requested beyond end: %r" % ( attribute, (index[0], endactual) )', 'pass', fires=[ 'D-VALIDATE' ], why='defect AQ reverted' ),
@@ -405,10 +405,20 @@ VARIANTS = [
     V( 'validate-extent-only-for-writes', LOGIX, 'assert endmax <= endactual, \\', 'assert endactual <= cnt\n            assert endmax <= endactual, \\', silent=[ 'D-VALIDATE' ], why='an additional early check in the write branch changes nothing' ),
     V( 'validate-extent-mirrored-and-count-dropped', LOGIX, 'assert elm <= cnt, \\\n "Attribute %r elements requested invalid: %r" % ( attribute, elm )\n assert endactual <= cnt, \\', 'assert cnt >= endactual, \\', silent=[ 'D-VALIDATE' ], why='elm <= cnt is implied by beg >= 0 and endactual <= cnt' ),
     V( 'spectext-name-padded-to-16', PARSER, "result += data.service_name.encode( 'iso-8859-1' )\n result += b'\\0'\n return result", "result		       += struct.pack( '16s', data.service_name.encode( 'iso-8859-1' ))\n        return result", silent=[ 'L-SPECTEXT' ], why='the conformant producer: the known finding AR disappears' ),
-    V( 'pace-soft-handler-removed', HFILES, "except Exception as exc:\n # The line (already consumed) has no parsable timestamp/serial, or is not in the\n # expected encoding. Report that no record could be parsed; the caller may power thru.\n n += 1\n log.warning( \"%s Playback skipping %s, line %d: %s\", self, self.name+f, n, exc )\n ts,js = None,None", "except ValueError as exc:\n                    raise", fires=[ 'H-PACE' ], why='defect Q reverted' ),
+    V( 'pace-soft-handler-removed', HFILES, "except ValueError as exc:\n # The line (already consumed) has no parsable timestamp/serial, or is not in the\n # expected encoding. Report that no record could be parsed; the caller may power thru.\n n += 1\n log.warning( \"%s Playback skipping %s, line %d: %s\", self, self.name+f, n, exc )\n ts,js = None,None", "except ValueError as exc:\n                    raise", fires=[ 'H-PACE' ], why='defect Q reverted' ),
     V( 'pace-soft-handler-keeps-previous-record', HFILES, "log.warning( \"%s Playback skipping %s, line %d: %s\", self, self.name+f, n, exc )\n ts,js = None,None", "log.warning( \"%s Playback skipping %s, line %d: %s\", self, self.name+f, n, exc )", fires=[ 'H-PACE' ], why='the previous record would be yielded a second time' ),
     V( 'pace-soft-handler-chain-assignment', HFILES, "ts,js = None,None", "ts = js	= None", silent=[ 'H-PACE' ] ),
     V( 'load-none-report-compared', HFILES, "assert self.state not in (self.INITIAL, self.SWITCHING)\n continue", "assert self.state not in (self.INITIAL, self.SWITCHING)", fires=[ 'H-LOAD' ], why='a ( None, None ) report reaches ts >= self._deadline' ),
+    V( 'merge-overlap-clause-removed', MODBUS, "if ( address < base + length\n or ( address // 10000 == base // 10000\n and address < base + length + ( reach or 1 ))):", "if ( address // 10000 == base // 10000\n                 and address < base + length + ( reach or 1 )):", fires=[ 'M-BANK' ], why='defect AT reverted' ),
+    V( 'merge-condition-distributed', MODBUS, "if ( address < base + length\n or ( address // 10000 == base // 10000\n and address < base + length + ( reach or 1 ))):", "if ( address - base < length\n                 or ( base // 10000 == address // 10000\n                      and address - base - length < ( reach or 1 ))):", silent=[ 'M-BANK', 'M-EXTENT' ], why='the same decision table, spelled differently' ),
+    V( 'merge-empty-skip-removed', MODBUS, "if not count:\n continue # an empty range requests no register; it must not stretch its neighbours\n if length:", "if length:", fires=[ 'M-BANK' ], why='defect AU reverted' ),
+    V( 'merge-empty-skip-as-comparison', MODBUS, "if not count:\n continue # an empty range requests no register; it must not stretch its neighbours", "if count == 0:\n            continue", silent=[ 'M-BANK', 'M-EXTENT' ] ),
+    V( 'poller-iterates-live-dict', MODBUS, "for a in list( self._data )), reach=self.reach ))", "for a in self._data ), reach=self.reach ))", fires=[ 'M-SNAPSHOT' ], why='defect AV reverted' ),
+    V( 'poller-snapshot-by-sorted', MODBUS, "for a in list( self._data )), reach=self.reach ))", "for a in sorted( self._data )), reach=self.reach ))", silent=[ 'M-SNAPSHOT' ] ),
+    V( 'poller-list-comprehension-over-live-dict', MODBUS, "rngs = set( merge( ( (a,1) for a in list( self._data )), reach=self.reach ))", "rngs		= set( merge( [ (a,1) for a in self._data ], reach=self.reach ))", fires=[ 'M-SNAPSHOT' ], why='a comprehension is a bytecode loop, not one builtin call' ),
+    V( 'pace-soft-handler-catches-stream-errors', HFILES, "except ValueError as exc:\n # The line (already consumed)", "except Exception as exc:\n                    # The line (already consumed)", fires=[ 'H-PACE' ], why='defect AW reverted: a truncated .gz spins' ),
+    V( 'pace-soft-handler-tuple-of-parse-errors', HFILES, "except ValueError as exc:\n # The line (already consumed)", "except ( ValueError, AssertionError ) as exc:\n                    # The line (already consumed)", silent=[ 'H-PACE' ] ),
+    V( 'validate-extent-clamped-under-assert', LOGIX, "endactual = beg + elm", "endactual		= min( beg + elm, cnt )", fires=[ 'D-VALIDATE' ], why='seed C14-2: with the extent assert of AQ in place a clamp makes it vacuous' ),
 ]
 
 
